@@ -149,19 +149,41 @@ theorem done_check_passes {s : Sys SP DV} (h : SysInv hash s) (ho : DirOwner has
 
 /-! ### documents: the sequential outcome -/
 
-/-- the `job.doc[k] = x` operations on job `i` still to be completed by a script -/
-def pendingSets (hash : SP → JobId) (i : JobId) : List (Op SP DV) → List (String × DV)
-  | [] => []
-  | .docSet v k x :: r => if hash v = i then (k, x) :: pendingSets hash i r else pendingSets hash i r
-  | _ :: r => pendingSets hash i r
+/-- one logical write to a job document: `doc[k] = x`, or the whole-document assignment `doc = d` -/
+inductive DocW (DV : Type) where
+  | set (k : String) (x : DV)
+  | assign (d : Doc DV)
 
-def applySets (d : Doc DV) : List (String × DV) → Doc DV
+/-- the document after one write: an assignment makes the document BE `d`, whatever it was -/
+def applyW (d : Doc DV) : DocW DV → Doc DV
+  | .set k x => setKV d k x
+  | .assign d' => d'
+
+/-- the write an operation performs on the document of job `i` (if any) -/
+def writeOn (hash : SP → JobId) (i : JobId) : Op SP DV → Option (DocW DV)
+  | .docSet v k x => if hash v = i then some (.set k x) else none
+  | .docAssign v d => if hash v = i then some (.assign d) else none
+  | _ => none
+
+/-- the writes (`doc[k] = x` and `doc = d`) on job `i` still to be completed by a script, in
+    program order -/
+def pendingSets (hash : SP → JobId) (i : JobId) (s : List (Op SP DV)) : List (DocW DV) :=
+  s.filterMap (writeOn hash i)
+
+def applySets (d : Doc DV) : List (DocW DV) → Doc DV
   | [] => d
-  | (k, x) :: r => applySets (setKV d k x) r
+  | w :: r => applySets (applyW d w) r
 
 def isDocSave : Phase SP DV → Bool
   | .save _ _ .doc _ => true
   | _ => false
+
+def asgHead : List (Op SP DV) → Bool
+  | .docAssign _ _ :: _ => true
+  | _ => false
+
+/-- a state that is in a document save it has just entered without loading is assigning -/
+def DS (st : AState SP DV) : Prop := isDocSave st.phase = true → asgHead st.script = true
 
 theorem firstPhase_not_docsave (op : Op SP DV) : isDocSave (firstPhase op) = false := by
   cases op <;> rfl
@@ -171,61 +193,86 @@ theorem finishOp_not_docsave (st : AState SP DV) : isDocSave (finishOp st).phase
   · rfl
   · exact firstPhase_not_docsave _
 
-theorem afterInit_not_docsave (st : AState SP DV) (v : SP) : isDocSave (afterInit st v).phase = false := by
-  unfold afterInit; split
-  · rfl
-  · rfl
-  · exact finishOp_not_docsave _
+theorem ds_of_not {st : AState SP DV} (h : isDocSave st.phase = false) : DS st := by
+  intro h'; rw [h] at h'; cases h'
 
-/-- a document save is only entered from the document load and left through its own steps -/
-theorem resume_not_docsave {st : AState SP DV} (r : Res SP DV)
+theorem ds_finishOp (st : AState SP DV) : DS (finishOp st) := ds_of_not (finishOp_not_docsave st)
+
+theorem ds_afterInit (st : AState SP DV) (v : SP) : DS (afterInit hash st v) := by
+  unfold afterInit; split
+  · exact ds_of_not rfl
+  · exact ds_of_not rfl
+  · rename_i heq; intro _; simp only [AState.goto, heq, asgHead]
+  · exact ds_finishOp _
+
+theorem ds_docStart (st : AState SP DV) (v : SP) : DS (docStart hash st v) := by
+  unfold docStart; split
+  · rename_i heq; intro _; simp only [AState.goto, heq, asgHead]
+  · exact ds_of_not rfl
+
+/-- a document save is entered from the document load (`doc[k] = x`), or — by an assignment —
+    straight from the directory check / the end of `init`; it is left through its own steps -/
+theorem resume_docsave {st : AState SP DV} (r : Res SP DV)
     (h1 : ∀ v, st.phase ≠ .dload v) (h2 : isDocSave st.phase = false) :
-    isDocSave (resume hash st r).phase = false := by
+    DS (resume hash st r) := by
   cases hph : st.phase with
-  | fin => simp only [resume, hph]; first | rfl | (rw [hph]; rfl)
+  | fin => simp only [resume, hph]; exact ds_of_not (by rw [hph]; rfl)
   | proj n =>
     simp only [resume, hph, resumeProj]
     cases n <;> simp only <;> repeat' split
-    all_goals first | exact finishOp_not_docsave _ | rfl
-  | lite v => simp only [resume, hph]; split <;> rfl
+    all_goals first | exact ds_finishOp _ | exact ds_of_not rfl
+  | lite v => simp only [resume, hph]; split
+              · exact ds_docStart _ _
+              · exact ds_of_not rfl
   | ini n v =>
     simp only [resume, hph, resumeIni]
     cases n <;> simp only <;> repeat' split
-    all_goals first | exact afterInit_not_docsave _ _ | rfl
+    all_goals first | exact ds_afterInit _ _ | exact ds_of_not rfl
   | save n i k c =>
     cases k with
     | doc => simp [hph, isDocSave] at h2
     | sp =>
       simp only [resume, hph, resumeSave]
       cases n <;> simp only <;> repeat' split
-      all_goals first | exact finishOp_not_docsave _ | rfl | (rename_i heq; cases heq) | (rename_i heq _; cases heq)
+      all_goals first | exact ds_finishOp _ | exact ds_of_not rfl | (rename_i heq; cases heq) | (rename_i heq _; cases heq)
   | dload v => exact absurd hph (h1 v)
   | len => simp only [resume, hph]; split
-           · exact finishOp_not_docsave _
-           · rfl
+           · exact ds_finishOp _
+           · exact ds_of_not rfl
+
 theorem finishOp_script (st : AState SP DV) : (finishOp st).script = st.script.tail := by
   simp only [finishOp, startNext]; split <;> rfl
 
+theorem docStart_script (st : AState SP DV) (v : SP) : (docStart hash st v).script = st.script := by
+  unfold docStart; split <;> rfl
+
 theorem pendingSets_tail {i : JobId} {s : List (Op SP DV)}
-    (h : ∀ v k x r, s = .docSet v k x :: r → hash v ≠ i) :
+    (h : ∀ op r, s = op :: r → writeOn hash i op = none) :
     pendingSets hash i s.tail = pendingSets hash i s := by
   cases s with
   | nil => rfl
-  | cons op r =>
-    cases op with
-    | docSet v k x => simp [pendingSets, h v k x r rfl]
-    | _ => simp [pendingSets]
+  | cons op r => simp [pendingSets, List.filterMap_cons, h op r rfl]
+
+theorem pendingSets_cons {i : JobId} {op : Op SP DV} {r : List (Op SP DV)} {wr : DocW DV}
+    (h : writeOn hash i op = some wr) : pendingSets hash i (op :: r) = wr :: pendingSets hash i r := by
+  simp [pendingSets, List.filterMap_cons, h]
 
 theorem pending_afterInit (i : JobId) (st : AState SP DV) (v : SP) :
-    pendingSets hash i (afterInit st v).script = pendingSets hash i st.script := by
+    pendingSets hash i (afterInit hash st v).script = pendingSets hash i st.script := by
   unfold afterInit; split
   · rfl
   · rfl
-  · rename_i h1 h2
+  · rfl
+  · rename_i h1 h2 h3
     rw [finishOp_script]
-    exact pendingSets_tail (fun w k x r e => absurd e (h1 w k x r))
+    apply pendingSets_tail
+    intro op r e
+    cases op with
+    | docSet w k x => exact absurd e (h1 w k x r)
+    | docAssign w d => exact absurd e (h3 w d r)
+    | _ => rfl
 
-/-- only the completing rename of a `doc[k] = x` on job `i` takes that operation off the script -/
+/-- only the completing rename of a write on job `i` takes that operation off the script -/
 theorem pending_resume {st : AState SP DV} {i : JobId} (hh : HeadOk hash st.phase st.script)
     (hnr : ∀ c, st.phase ≠ .save .rename i .doc c) (r : Res SP DV) :
     pendingSets hash i (resume hash st r).script = pendingSets hash i st.script := by
@@ -235,11 +282,13 @@ theorem pending_resume {st : AState SP DV} {i : JobId} (hh : HeadOk hash st.phas
     rw [hph] at hh
     obtain ⟨rest, hs⟩ := hh
     have hfin : pendingSets hash i (finishOp st).script = pendingSets hash i st.script := by
-      rw [finishOp_script]; exact pendingSets_tail (fun w k x r e => by rw [hs] at e; cases e)
+      rw [finishOp_script]; exact pendingSets_tail (fun op r e => by rw [hs] at e; cases e; rfl)
     simp only [resume, hph, resumeProj]
     cases n <;> simp only <;> repeat' split
     all_goals first | exact hfin | rfl
-  | lite v => simp only [resume, hph]; split <;> rfl
+  | lite v => simp only [resume, hph]; split
+              · rw [docStart_script]
+              · rfl
   | ini n v =>
     simp only [resume, hph, resumeIni]
     cases n <;> simp only <;> repeat' split
@@ -252,15 +301,17 @@ theorem pending_resume {st : AState SP DV} {i : JobId} (hh : HeadOk hash st.phas
       cases n <;> simp only <;> repeat' split
       all_goals first | rfl | (rename_i heq; cases heq) | (rename_i heq _; cases heq)
     | doc =>
-      obtain ⟨v, k, x, rest, hs, hv⟩ := hh
       have hfin : n = .rename → pendingSets hash i (finishOp st).script = pendingSets hash i st.script := by
         intro hn; subst hn
         rw [finishOp_script]
         apply pendingSets_tail
-        intro w k' x' r' e
-        rw [hs] at e; cases e
-        intro hji
-        exact hnr c (by rw [hph, ← hji, hv])
+        intro op r' e
+        have hji : j ≠ i := fun hji => hnr c (by rw [hph, hji])
+        rcases hh with ⟨v, k, x, rest, hs, hv⟩ | ⟨v, d, rest, hs, hv, _⟩
+        · rw [hs] at e; cases e
+          simp only [writeOn, hv, hji, if_false]
+        · rw [hs] at e; cases e
+          simp only [writeOn, hv, hji, if_false]
       cases n <;> simp only <;> repeat' split
       all_goals first | exact hfin rfl | rfl | (rename_i heq; cases heq) | (rename_i heq _; cases heq)
   | dload v =>
@@ -273,14 +324,14 @@ theorem pending_resume {st : AState SP DV} {i : JobId} (hh : HeadOk hash st.phas
       | (rename_i w rest heq
          show pendingSets hash i (finishOp _).script = _
          rw [finishOp_script]
-         exact pendingSets_tail (fun w' k x r e => by simp only at e; rw [heq] at e; cases e))
+         exact pendingSets_tail (fun op r e => by simp only at e; rw [heq] at e; cases e; rfl))
   | len =>
     rw [hph] at hh
     obtain ⟨rest, hs⟩ := hh
     simp only [resume, hph]
     split
     · rw [finishOp_script]
-      exact pendingSets_tail (fun w k x r e => by simp only at e; rw [hs] at e; cases e)
+      exact pendingSets_tail (fun op r e => by simp only at e; rw [hs] at e; cases e; rfl)
     · rfl
 
 def AllHeadOk (hash : SP → JobId) (s : Sys SP DV) : Prop :=
@@ -315,156 +366,193 @@ theorem allHeadOk_start (fs : FS SP DV) (scripts : List (List (Op SP DV))) :
     subst hst; exact headOk_start sc
 
 /-- what actor `w` still has to write into the document of job `i` -/
-def wPending (hash : SP → JobId) (i : JobId) (w : Nat) (s : Sys SP DV) : List (String × DV) :=
+def wPending (hash : SP → JobId) (i : JobId) (w : Nat) (s : Sys SP DV) : List (DocW DV) :=
   match s.actors[w]? with
   | some st => pendingSets hash i st.script
   | none => []
 
 /-- Invariant for a document with (at most) one writing actor `w`: applying what the writer still
     has to do to the published document always gives the same result `T`; while the writer is
-    saving, its payload is the published document with the pending key set. -/
+    saving a `doc[k] = x`, its payload is the published document with the pending key set (the
+    payload of an assignment is the assigned mapping: part of `HeadOk`). -/
 structure DocInv (hash : SP → JobId) (i : JobId) (w : Nat) (T : Doc DV) (s : Sys SP DV) : Prop where
   heads : AllHeadOk hash s
-  others : ∀ (a : Nat) (st : AState SP DV), s.actors[a]? = some st → a ≠ w → pendingSets hash i st.script = []
+  others : ∀ (a : Nat), a ≠ w → wPending hash i a s = []
   target : applySets (docNow s.fs i) (wPending hash i w s) = T
   saving : ∀ (st : AState SP DV) n c, s.actors[w]? = some st → st.phase = .save n i .doc c →
-    ∃ v k x r, st.script = .docSet v k x :: r ∧ c = .docc (setKV (docNow s.fs i) k x)
+    ∀ v k x r, st.script = .docSet v k x :: r → c = .docc (setKV (docNow s.fs i) k x)
 
 theorem docNow_congr {f1 f2 : FS SP DV} {i : JobId} (h : f1.get (.file i .doc) = f2.get (.file i .doc)) :
     docNow f1 i = docNow f2 i := by
   simp only [docNow, h]
 
+/-- the payload of a save of the document of job `i` in progress: the published document with the
+    write at the head of the writer's script applied -/
+theorem saving_payload {s : Sys SP DV} {i : JobId} {w : Nat} {T : Doc DV} (hd : DocInv hash i w T s)
+    {b : Nat} {st : AState SP DV} {n : SavePc} {c : Content SP DV}
+    (hst : s.actors[b]? = some st) (hph : st.phase = .save n i .doc c) :
+    b = w ∧ ∃ op r wr, st.script = op :: r ∧ writeOn hash i op = some wr ∧
+      c = .docc (applyW (docNow s.fs i) wr) := by
+  have hhead := hd.heads b st hst
+  rw [hph] at hhead
+  have hbw : b = w := by
+    apply Classical.byContradiction
+    intro hne
+    have := hd.others b hne
+    simp only [wPending, hst] at this
+    rcases hhead with ⟨v, k, x, r, hs, hv⟩ | ⟨v, d, r, hs, hv, _⟩ <;>
+      simp [hs, pendingSets, writeOn, hv] at this
+  subst hbw
+  refine ⟨rfl, ?_⟩
+  rcases hhead with ⟨v, k, x, r, hs, hv⟩ | ⟨v, d, r, hs, hv, hc⟩
+  · exact ⟨_, r, .set k x, hs, by simp [writeOn, hv], hd.saving st n c hst hph v k x r hs⟩
+  · exact ⟨_, r, .assign d, hs, by simp [writeOn, hv], hc⟩
+
+theorem wPending_other {s : Sys SP DV} {i : JobId} {a b : Nat} (hab : a ≠ b) :
+    wPending hash i a (sysStep hash s b) = wPending hash i a s := by
+  have : (sysStep hash s b).actors[a]? = s.actors[a]? := by
+    cases hst : s.actors[b]? with
+    | none => rw [sysStep_idle_none hst]
+    | some st =>
+    cases hn : next hash b st with
+    | none => rw [sysStep_idle_fin hst hn]
+    | some ins => rw [sysStep_eq hst hn]; exact set_other _ hab
+  simp only [wPending, this]
+
+/-- the completing rename of a save of the document of job `i`: it is the writer's, the published
+    document becomes the old one with the head write applied, and that write leaves the script -/
+theorem doc_step_rename {s : Sys SP DV} {i : JobId} {w : Nat} {T : Doc DV}
+    (h : SysInv hash s) (hd : DocInv hash i w T s) {b : Nat} {st : AState SP DV} {c : Content SP DV}
+    (hst : s.actors[b]? = some st) (hph : st.phase = .save .rename i .doc c) :
+    b = w ∧ (sysStep hash s b).actors[b]? = some (finishOp st) ∧
+    ∃ wr, wPending hash i b s = wr :: wPending hash i b (sysStep hash s b) ∧
+      docNow (sysStep hash s b).fs i = applyW (docNow s.fs i) wr := by
+  obtain ⟨hbw, op, r, wr, hs, hwr, hc⟩ := saving_payload hd hst hph
+  have hinv := h.actors b st hst
+  have hn : next hash b st = some (.rename (.tmp i .doc b) (.file i .doc)) := by
+    simp only [next, hph]
+  have hfs' : (sysStep hash s b).fs.get (.file i .doc) = some (.file c) := rename_publishes h hst hph
+  have hact : (sysStep hash s b).actors[b]? = some (finishOp st) := by
+    rw [sysStep_eq hst hn, tr_save_rename h.fs hinv hph]
+    simp only [tr_save_rename_doc (hash := hash) hph]
+    exact set_self hst
+  refine ⟨hbw, hact, wr, ?_, ?_⟩
+  · simp only [wPending, hst, hact, finishOp_script, hs, List.tail_cons]
+    exact pendingSets_cons hwr
+  · simp only [docNow, hfs', hc]
+
+/-- any other step leaves the published document and everybody's pending writes alone -/
+theorem doc_step_other {s : Sys SP DV} {i : JobId} (hh : AllHeadOk hash s) {b : Nat}
+    (hnr : ∀ st, s.actors[b]? = some st → ∀ c, st.phase ≠ .save .rename i .doc c) :
+    docNow (sysStep hash s b).fs i = docNow s.fs i ∧
+    ∀ a, wPending hash i a (sysStep hash s b) = wPending hash i a s := by
+  refine ⟨docNow_congr (sysStep_frame hnr), ?_⟩
+  intro a
+  by_cases hab : a = b
+  · subst hab
+    cases hst : s.actors[a]? with
+    | none => rw [sysStep_idle_none hst]
+    | some st =>
+    cases hn : next hash a st with
+    | none => rw [sysStep_idle_fin hst hn]
+    | some ins =>
+      rw [sysStep_eq hst hn]
+      simp only [wPending, set_self hst, hst]
+      exact pending_resume (hh a st hst) (hnr st hst) _
+  · exact wPending_other hab
+
 theorem docInv_step {s : Sys SP DV} {i : JobId} {w : Nat} {T : Doc DV}
     (h : SysInv hash s) (hd : DocInv hash i w T s) (b : Nat) : DocInv hash i w T (sysStep hash s b) := by
   have hheads := allHeadOk_step hd.heads b
-  cases hst : s.actors[b]? with
-  | none => rw [sysStep_idle_none hst]; exact hd
-  | some st =>
-  cases hn : next hash b st with
-  | none => rw [sysStep_idle_fin hst hn]; exact hd
-  | some ins =>
-  have hinv := h.actors b st hst
-  have hhead := hd.heads b st hst
-  by_cases hren : ∃ c, st.phase = .save .rename i .doc c
+  by_cases hren : ∃ st c, s.actors[b]? = some st ∧ st.phase = .save .rename i .doc c
   · -- the completing rename of a save of this document
-    obtain ⟨c, hph⟩ := hren
-    have hbw : b = w := by
-      apply Classical.byContradiction
-      intro hne
-      have := hd.others b st hst hne
-      rw [hph] at hhead
-      obtain ⟨v, k, x, r, hs, hv⟩ := hhead
-      simp [hs, pendingSets, hv] at this
+    obtain ⟨st, c, hst, hph⟩ := hren
+    obtain ⟨hbw, hact, wr, hpend, hdn⟩ := doc_step_rename h hd hst hph
     subst hbw
-    obtain ⟨v, k, x, r, hs, hc⟩ := hd.saving st _ _ hst hph
-    have hv : hash v = i := by
-      rw [hph] at hhead
-      obtain ⟨v', k', x', r', hs', hv'⟩ := hhead
-      rw [hs] at hs'; cases hs'; exact hv'
-    have hn' : ins = .rename (.tmp i .doc b) (.file i .doc) := by
-      simp only [next, hph, Option.some.injEq] at hn; exact hn.symm
-    subst hn'
-    have hfs' : (sysStep hash s b).fs.get (.file i .doc) = some (.file c) := rename_publishes h hst hph
-    have hdn : docNow (sysStep hash s b).fs i = setKV (docNow s.fs i) k x := by
-      simp only [docNow, hfs', hc]
-    have hact : (sysStep hash s b).actors[b]? = some (finishOp st) := by
-      rw [sysStep_eq hst hn, tr_save_rename h.fs hinv hph]
-      simp only [tr_save_rename_doc (hash := hash) hph]
-      exact set_self hst
     refine ⟨hheads, ?_, ?_, ?_⟩
-    · intro a sta ha hne
-      rw [sysStep_eq hst hn] at ha
-      simp only at ha
-      rw [set_other _ hne] at ha
-      exact hd.others a sta ha hne
+    · intro a hne
+      rw [wPending_other hne]; exact hd.others a hne
     · have ht := hd.target
-      simp only [wPending, hst, hs, pendingSets, hv, if_true, applySets] at ht
-      simp only [wPending, hact, hdn, finishOp_script, hs, List.tail_cons]
-      exact ht
+      rw [hpend] at ht
+      rw [hdn]; exact ht
     · intro st' n c' hst' hph'
       rw [hact] at hst'; cases hst'
       have := finishOp_not_docsave st
       rw [hph'] at this; simp [isDocSave] at this
   · -- any other step leaves the published document and the pending operations alone
-    have hnr : ∀ c, st.phase ≠ .save .rename i .doc c := fun c e => hren ⟨c, e⟩
-    have hframe : (sysStep hash s b).fs.get (.file i .doc) = s.fs.get (.file i .doc) :=
-      sysStep_frame (by intro st' hst' c; rw [hst] at hst'; cases hst'; exact hnr c)
-    have hdn : docNow (sysStep hash s b).fs i = docNow s.fs i := docNow_congr hframe
-    have hpend := pending_resume (i := i) hhead hnr (exec s.fs ins).2
-    have hactb : (sysStep hash s b).actors[b]? = some (resume hash st (exec s.fs ins).2) := by
-      rw [sysStep_eq hst hn]; exact set_self hst
-    have hacto : ∀ a, a ≠ b → (sysStep hash s b).actors[a]? = s.actors[a]? := by
-      intro a hab; rw [sysStep_eq hst hn]; exact set_other _ hab
+    have hnr : ∀ st, s.actors[b]? = some st → ∀ c, st.phase ≠ .save .rename i .doc c :=
+      fun st hst c e => hren ⟨st, c, hst, e⟩
+    obtain ⟨hdn, hpend⟩ := doc_step_other (i := i) hd.heads hnr
     refine ⟨hheads, ?_, ?_, ?_⟩
-    · intro a sta ha hne
-      by_cases hab : a = b
-      · subst hab
-        rw [hactb] at ha; cases ha
-        rw [hpend]; exact hd.others a st hst hne
-      · rw [hacto a hab] at ha
-        exact hd.others a sta ha hne
-    · rw [hdn]
-      have ht := hd.target
-      by_cases hwb : w = b
-      · subst hwb
-        simp only [wPending, hst] at ht
-        simp only [wPending, hactb, hpend]; exact ht
-      · simp only [wPending, hacto w hwb]
-        simpa only [wPending] using ht
-    · intro st' n c' hst' hph'
+    · intro a hne; rw [hpend]; exact hd.others a hne
+    · rw [hdn, hpend]; exact hd.target
+    · intro st' n c' hst' hph' v k x r' hs'
       rw [hdn]
       by_cases hwb : w = b
       · subst hwb
-        rw [hactb] at hst'; cases hst'
-        -- where can a document save of job i come from?
+        cases hst : s.actors[w]? with
+        | none => rw [sysStep_idle_none hst] at hst'; rw [hst] at hst'; cases hst'
+        | some st =>
+        cases hn : next hash w st with
+        | none =>
+          rw [sysStep_idle_fin hst hn] at hst'
+          exact hd.saving st' n c' hst' hph' v k x r' hs'
+        | some ins =>
+        have hinv := h.actors w st hst
+        rw [sysStep_eq hst hn] at hst'
+        simp only at hst'
+        rw [set_self hst] at hst'; cases hst'
+        -- where can a document save of job i with a `doc[k] = x` at the head come from?
         cases hph : st.phase with
-        | dload v =>
-          have hn' : ins = .read (.file (hash v) .doc) := by
+        | dload v0 =>
+          have hn' : ins = .read (.file (hash v0) .doc) := by
             simp only [next, hph, Option.some.injEq] at hn; exact hn.symm
           subst hn'
           obtain ⟨_, e2⟩ := tr_dload h.fs hinv hph
-          rw [e2] at hph'
-          unfold resumeDload at hph'
+          rw [e2] at hph' hs'
+          unfold resumeDload at hph' hs'
           split at hph'
-          · rename_i v' k x r hs
+          · rename_i v' k0 x0 r0 hs
+            simp only [hs, AState.goto] at hs'
+            cases hs'
             simp only [AState.goto, Phase.save.injEq] at hph'
             obtain ⟨_, hi, _, hc⟩ := hph'
-            exact ⟨v', k, x, r, by rw [e2]; unfold resumeDload; simp only [hs, AState.goto], by rw [← hc, hi]⟩
-          · have := finishOp_not_docsave { st with out := .doc (docNow s.fs (hash v)) :: st.out }
+            rw [← hc, hi]
+          · have := finishOp_not_docsave { st with out := .doc (docNow s.fs (hash v0)) :: st.out }
             rw [hph'] at this; simp [isDocSave] at this
           · simp [AState.fail] at hph'
-        | save n0 j k c0 =>
-          cases k with
+        | save n0 j k0 c0 =>
+          cases k0 with
           | sp =>
-            have := resume_not_docsave (hash := hash) (st := st) (exec s.fs ins).2
-              (by intro v e; rw [hph] at e; cases e) (by rw [hph]; rfl)
-            rw [hph'] at this; simp [isDocSave] at this
+            have := resume_docsave (hash := hash) (st := st) (exec s.fs ins).2
+              (by intro v e; rw [hph] at e; cases e) (by rw [hph]; rfl) (by rw [hph']; rfl)
+            rw [hs'] at this; simp [asgHead] at this
           | doc =>
             cases n0
             · have hn' : ins = .openw (.tmp j .doc w) := by
                 simp only [next, hph, Option.some.injEq] at hn; exact hn.symm
               subst hn'
               obtain ⟨e1, e2⟩ := tr_save_openw h.fs hinv hph
-              rw [e1] at hph' ⊢; simp only [e2, AState.goto, Phase.save.injEq] at hph' ⊢
+              rw [e1] at hph' hs'; simp only [e2, AState.goto, Phase.save.injEq] at hph' hs'
               obtain ⟨_, hj, _, hc⟩ := hph'
               subst hj; subst hc
-              exact hd.saving st _ _ hst hph
+              exact hd.saving st _ _ hst hph v k x r' hs'
             · have hn' : ins = .write (.tmp j .doc w) c0 := by
                 simp only [next, hph, Option.some.injEq] at hn; exact hn.symm
               subst hn'
               obtain ⟨e1, e2⟩ := tr_save_write hinv hph
-              rw [e1] at hph' ⊢; simp only [e2, AState.goto, Phase.save.injEq] at hph' ⊢
+              rw [e1] at hph' hs'; simp only [e2, AState.goto, Phase.save.injEq] at hph' hs'
               obtain ⟨_, hj, _, hc⟩ := hph'
               subst hj; subst hc
-              exact hd.saving st _ _ hst hph
+              exact hd.saving st _ _ hst hph v k x r' hs'
             · have hn' : ins = .close (.tmp j .doc w) := by
                 simp only [next, hph, Option.some.injEq] at hn; exact hn.symm
               subst hn'
               obtain ⟨e1, e2⟩ := tr_save_close (hash := hash) (fs := s.fs) (a := w) hph
-              rw [e1] at hph' ⊢; simp only [e2, AState.goto, Phase.save.injEq] at hph' ⊢
+              rw [e1] at hph' hs'; simp only [e2, AState.goto, Phase.save.injEq] at hph' hs'
               obtain ⟨_, hj, _, hc⟩ := hph'
               subst hj; subst hc
-              exact hd.saving st _ _ hst hph
+              exact hd.saving st _ _ hst hph v k x r' hs'
             · have hn' : ins = .rename (.tmp j .doc w) (.file j .doc) := by
                 simp only [next, hph, Option.some.injEq] at hn; exact hn.symm
               subst hn'
@@ -473,11 +561,18 @@ theorem docInv_step {s : Sys SP DV} {i : JobId} {w : Nat} {T : Doc DV}
               have := finishOp_not_docsave st
               rw [hph'] at this; simp [isDocSave] at this
         | fin | proj _ | lite _ | ini _ _ | len =>
-          have := resume_not_docsave (hash := hash) (st := st) (exec s.fs ins).2
-            (by intro v e; rw [hph] at e; cases e) (by rw [hph]; rfl)
-          rw [hph'] at this; simp [isDocSave] at this
-      · rw [hacto w hwb] at hst'
-        exact hd.saving st' n c' hst' hph'
+          have := resume_docsave (hash := hash) (st := st) (exec s.fs ins).2
+            (by intro v e; rw [hph] at e; cases e) (by rw [hph]; rfl) (by rw [hph']; rfl)
+          rw [hs'] at this; simp [asgHead] at this
+      · have : (sysStep hash s b).actors[w]? = s.actors[w]? := by
+          cases hst : s.actors[b]? with
+          | none => rw [sysStep_idle_none hst]
+          | some st =>
+          cases hn : next hash b st with
+          | none => rw [sysStep_idle_fin hst hn]
+          | some ins => rw [sysStep_eq hst hn]; exact set_other _ hwb
+        rw [this] at hst'
+        exact hd.saving st' n c' hst' hph' v k x r' hs'
 
 
 theorem docInv_run {s : Sys SP DV} {i : JobId} {w : Nat} {T : Doc DV}
@@ -487,34 +582,36 @@ theorem docInv_run {s : Sys SP DV} {i : JobId} {w : Nat} {T : Doc DV}
   | nil => exact hd
   | cons a rest ih => exact ih (sysStep_inv_guar h a).1 (docInv_step h hd a)
 
-/-- at most actor `w` writes the document of job `i` -/
+/-- at most actor `w` writes (`doc[k] = x` or `doc = d`) the document of job `i` -/
 def SingleWriter (hash : SP → JobId) (i : JobId) (w : Nat) (scripts : List (List (Op SP DV))) : Prop :=
   ∀ (a : Nat) (sc : List (Op SP DV)), scripts[a]? = some sc → a ≠ w → pendingSets hash i sc = []
 
-/-- the `doc[k] = x` operations of actor `w` on job `i`, in program order -/
+/-- the writes of actor `w` on the document of job `i`, in program order -/
 def writesOf (hash : SP → JobId) (i : JobId) (w : Nat) (scripts : List (List (Op SP DV))) :
-    List (String × DV) :=
+    List (DocW DV) :=
   match scripts[w]? with
   | some sc => pendingSets hash i sc
   | none => []
+
+theorem wPending_start (fs : FS SP DV) (i : JobId) (a : Nat) (scripts : List (List (Op SP DV))) :
+    wPending hash i a { fs := fs, actors := scripts.map AState.start } = writesOf hash i a scripts := by
+  simp only [wPending, writesOf, List.getElem?_map]
+  cases hs : scripts[a]? with
+  | none => simp
+  | some sc => simp [AState.start, pendingSets, List.filterMap_cons, writeOn]
 
 theorem docInv_initially {fs : FS SP DV} {i : JobId} {w : Nat} {scripts : List (List (Op SP DV))}
     (hsw : SingleWriter hash i w scripts) :
     DocInv hash i w (applySets (docNow fs i) (writesOf hash i w scripts))
       { fs := fs, actors := scripts.map AState.start } := by
   refine ⟨allHeadOk_start fs scripts, ?_, ?_, ?_⟩
-  · intro a st hst hne
-    simp only [List.getElem?_map] at hst
+  · intro a hne
+    rw [wPending_start]
+    simp only [writesOf]
     cases hs : scripts[a]? with
-    | none => simp [hs] at hst
-    | some sc =>
-      simp only [hs, Option.map_some, Option.some.injEq] at hst
-      subst hst
-      simpa [AState.start, pendingSets] using hsw a sc hs hne
-  · simp only [wPending, writesOf, List.getElem?_map]
-    cases hs : scripts[w]? with
-    | none => simp
-    | some sc => simp [AState.start, pendingSets]
+    | none => rfl
+    | some sc => exact hsw a sc hs hne
+  · rw [wPending_start]
   · intro st n c hst hph
     simp only [List.getElem?_map] at hst
     cases hs : scripts[w]? with
@@ -543,11 +640,17 @@ theorem finOk_fail (st : AState SP DV) (w : String) : FinOk (st.fail w) := by
 theorem finOk_goto (st : AState SP DV) {ph : Phase SP DV} (h : ph ≠ .fin) : FinOk (st.goto ph) := by
   intro _ hp; exact absurd hp h
 
-theorem finOk_afterInit (st : AState SP DV) (v : SP) : FinOk (afterInit st v) := by
+theorem finOk_afterInit (st : AState SP DV) (v : SP) : FinOk (afterInit hash st v) := by
   unfold afterInit; split
   · exact finOk_goto _ (by simp)
   · exact finOk_goto _ (by simp)
+  · exact finOk_goto _ (by simp)
   · exact finOk_finishOp _
+
+theorem finOk_docStart (st : AState SP DV) (v : SP) : FinOk (docStart hash st v) := by
+  unfold docStart; split
+  · exact finOk_goto _ (by simp)
+  · exact finOk_goto _ (by simp)
 
 theorem finOk_resume {st : AState SP DV} (h : FinOk st) (r : Res SP DV) : FinOk (resume hash st r) := by
   cases hph : st.phase with
@@ -556,7 +659,9 @@ theorem finOk_resume {st : AState SP DV} (h : FinOk st) (r : Res SP DV) : FinOk 
     simp only [resume, hph, resumeProj]
     cases n <;> simp only <;> repeat' split
     all_goals first | exact finOk_finishOp _ | exact finOk_fail _ _ | exact finOk_goto _ (by simp)
-  | lite v => simp only [resume, hph]; split <;> exact finOk_goto _ (by simp)
+  | lite v => simp only [resume, hph]; split
+              · exact finOk_docStart _ _
+              · exact finOk_goto _ (by simp)
   | ini n v =>
     simp only [resume, hph, resumeIni]
     cases n <;> simp only <;> repeat' split
@@ -616,15 +721,17 @@ def mentions (hash : SP → JobId) (i : JobId) : Op SP DV → Prop
   | .init v => hash v = i
   | .docSet v _ _ => hash v = i
   | .docGet v => hash v = i
+  | .docAssign v _ => hash v = i
   | _ => False
 
 theorem jobOp_mentions {v : SP} {s r : List (Op SP DV)} {op : Op SP DV} {i : JobId}
     (h : jobOp v s) (hs : s = op :: r) (hm : mentions hash i op) : hash v = i := by
-  rcases h with (⟨k, x, r', h⟩ | ⟨r', h⟩) | ⟨r', h⟩ <;> rw [hs] at h <;> cases h <;> exact hm
+  rcases h with (⟨k, x, r', h⟩ | ⟨r', h⟩) | ⟨r', h⟩ | ⟨d, r', h⟩ <;> rw [hs] at h <;> cases h <;> exact hm
 
 theorem jobOp_head_mentions {v : SP} {s : List (Op SP DV)} (h : jobOp v s) :
     ∃ op r, s = op :: r ∧ mentions hash (hash v) op := by
-  rcases h with (⟨k, x, r', h⟩ | ⟨r', h⟩) | ⟨r', h⟩
+  rcases h with (⟨k, x, r', h⟩ | ⟨r', h⟩) | ⟨r', h⟩ | ⟨d, r', h⟩
+  · exact ⟨_, _, h, rfl⟩
   · exact ⟨_, _, h, rfl⟩
   · exact ⟨_, _, h, rfl⟩
   · exact ⟨_, _, h, rfl⟩
@@ -636,8 +743,9 @@ def PopOk (hash : SP → JobId) (fs' : FS SP DV) (st st' : AState SP DV) : Prop 
      ∀ op r, st.script = op :: r → ∀ i, mentions hash i op → IsDir fs' (.jobdir i))
 
 theorem popOk_afterInit {fs : FS SP DV} {st : AState SP DV} {v : SP} (hh : jobOp v st.script)
-    (hd : IsDir fs (.jobdir (hash v))) : PopOk hash fs st (afterInit st v) := by
+    (hd : IsDir fs (.jobdir (hash v))) : PopOk hash fs st (afterInit hash st v) := by
   unfold afterInit; split
+  · exact Or.inl rfl
   · exact Or.inl rfl
   · exact Or.inl rfl
   · refine Or.inr ⟨finishOp_script st, ?_⟩
@@ -659,7 +767,9 @@ theorem pop_has_dir {fs : FS SP DV} {a : Nat} {st : AState SP DV} {ins : Instr S
     simp only [resume, hph, resumeProj]
     cases n <;> simp only <;> repeat' split
     all_goals first | exact hfin | exact Or.inl rfl
-  | lite v => simp only [resume, hph]; split <;> exact Or.inl rfl
+  | lite v => simp only [resume, hph]; split
+              · exact Or.inl (docStart_script _ _)
+              · exact Or.inl rfl
   | len =>
     rw [hph] at hh
     obtain ⟨rest, hs⟩ := hh
@@ -703,11 +813,14 @@ theorem pop_has_dir {fs : FS SP DV} {a : Nat} {st : AState SP DV} {ins : Instr S
         rw [tr_save_rename hfs hinv hph] at hd' ⊢
         simp only [tr_save_rename_doc (hash := hash) hph]
         refine Or.inr ⟨finishOp_script st, ?_⟩
-        obtain ⟨v, k, x, r, hs, hv⟩ := hh
         intro op r' e i hm
-        rw [hs] at e; cases e
-        simp only [mentions] at hm
-        rw [← hm, hv]; exact hd'
+        rcases hh with ⟨v, k, x, r, hs, hv⟩ | ⟨v, d, r, hs, hv, _⟩
+        · rw [hs] at e; cases e
+          simp only [mentions] at hm
+          rw [← hm, hv]; exact hd'
+        · rw [hs] at e; cases e
+          simp only [mentions] at hm
+          rw [← hm, hv]; exact hd'
   | ini n v =>
     rw [hph] at hh
     have hload : ∀ m, (m = IniPc.load1 ∨ m = IniPc.load2) → st.phase = .ini m v →
